@@ -691,8 +691,10 @@ func (r *collection) addService(service any, lifetime Lifetime, opts ...AddOptio
 		for _, iface := range options.As {
 			interfaceType := reflect.TypeOf(iface).Elem()
 
-			// Validate that the service type implements the interface
-			if !descriptor.Type.Implements(interfaceType) && !reflect.PointerTo(descriptor.Type).Implements(interfaceType) {
+			// Validate that the service type implements the interface. The produced value
+			// itself is what gets injected, so an interface implemented only by the pointer
+			// to the service type does not qualify: the value could not be assigned to it
+			if !descriptor.Type.Implements(interfaceType) {
 				return &TypeMismatchError{
 					Expected: interfaceType,
 					Actual:   descriptor.Type,
